@@ -20,7 +20,8 @@ RULE = (
     "fh x window (cutoff), n x test_size/train_size/fh (temporal_train_test_split); the fh "
     "container (int/list/array/ForecastingHorizon) and the index kind of y (RangeIndex, "
     "integer Index from 5, bare pd.Index) are rotated by case index + VERIF_SEED (thorough: "
-    "crossed for n<=8). A case is non-trivial when the reference model says the configuration "
+    "crossed for n<=8); for n<=9 the window / step / initial-window arguments again as numpy "
+    "integers. A case is non-trivial when the reference model says the configuration "
     "is feasible and it yields at least one fold; distinct = distinct (kind, n, fh, W, s, "
     "start_with_window, initial_window / cutoffs / sizes) tuples."
 )
@@ -80,6 +81,21 @@ def gen_cases(tier, seed):
                                 cs = cs[::-1]
                             for W in (1, 2, 3, n):
                                 yield dict(kind="cutoff", n=n, fh=fh, W=W, cutoffs=cs, **r())
+        # the same arithmetic with the integer parameters given as numpy integers (e.g. taken
+        # from np.arange in a parameter grid)
+        if n <= 9:
+            for fh in ([1], [1, 3]):
+                for W in range(1, n + 1):
+                    yield dict(kind="single", n=n, fh=fh, W=W, pt="np", fhc=FHC[(n + W) % 4],
+                               yk=YK[(n + seed) % 3])
+                    for s in range(1, b["S"] + 1):
+                        for sww in (True, False):
+                            yield dict(kind="expanding", n=n, fh=fh, W=W, s=s, sww=sww, pt="np",
+                                       fhc=FHC[(n + W + s) % 4], yk=YK[(n + seed) % 3])
+                            for I in (None, W + 1, W + 2):
+                                yield dict(kind="sliding", n=n, fh=fh, W=W, s=s, sww=sww, I=I,
+                                           pt="np", fhc=FHC[(n + W + s) % 4],
+                                           yk=YK[(n + seed) % 3])
         # the same splitter instance asked about a second series of another length (nothing may be
         # remembered from the first series)
         if n in (8, 11):
@@ -177,16 +193,21 @@ def run_case(case):
     y = _mk_y(n, case["yk"])
     fhv = _mk_fh(fh, case["fhc"])
     s = case.get("s", 1)
+    I = case.get("I")
+    if case.get("pt") == "np":
+        W, s, I = (None if W is None else np.int64(W)), np.int64(s), \
+            (None if I is None else np.int64(I))
     if kind == "sliding":
-        exp = ref.window_folds("sliding", n, fh, W, s, case["sww"], case["I"])
+        exp = ref.window_folds("sliding", n, fh, case["W"], case.get("s", 1), case["sww"],
+                               case["I"])
         cv = SlidingWindowSplitter(fh=fhv, window_length=W, step_length=s,
-                                   initial_window=case["I"], start_with_window=case["sww"])
+                                   initial_window=I, start_with_window=case["sww"])
     elif kind == "expanding":
-        exp = ref.window_folds("expanding", n, fh, W, s, case["sww"])
+        exp = ref.window_folds("expanding", n, fh, case["W"], case.get("s", 1), case["sww"])
         cv = ExpandingWindowSplitter(fh=fhv, initial_window=W, step_length=s,
                                      start_with_window=case["sww"])
     elif kind == "single":
-        exp = ref.single_fold(n, fh, W)
+        exp = ref.single_fold(n, fh, case["W"])
         cv = SingleWindowSplitter(fh=fhv, window_length=W)
     else:
         exp = ref.cutoff_folds(n, fh, W, case["cutoffs"])
